@@ -402,6 +402,17 @@ pub fn worlds(tier: Tier) -> Vec<WorldSys<'static, TlvMon>> {
         world(2, false, Prov::Lenient, false),
         world(2, false, Prov::Strict, false),
     ];
+    // a slave-only instance with path trace on (one and two ports)
+    for n in [1usize, 2] {
+        let mut w = world(n.max(2), true, Prov::Daemon, false);
+        if n == 1 {
+            w.cfg.node.ports.truncate(1);
+            w.seed.retain(|e| !matches!(e, Ev::T(1, _)));
+        }
+        w.cfg.node.slave_only = true;
+        w.name = format!("{}-slaveonly-{n}p", w.name);
+        v.push(w);
+    }
     if tier == Tier::Thorough {
         v.push(world(3, true, Prov::Daemon, false));
         v.push(world(4, false, Prov::Daemon, false));
